@@ -91,6 +91,7 @@ type State struct {
 	defers []*deferred
 	u      *Unit
 	noName bool // pure mode: terms must stay closed
+	symOrder [][2]string // gen kind sym: heaps touched, in first-use order
 }
 
 func (s *State) Clone() *State {
@@ -113,6 +114,12 @@ func (s *State) Heap(name, sort string) Term {
 	u := s.u
 	var t Term
 	switch s.gen.kind {
+	case "sym":
+		// symbolic heap of an opaque spec function's definition: a bound variable
+		t = Term{"hv!" + sanitize(name), sort}
+		s.heaps[name] = t
+		s.symOrder = append(s.symOrder, [2]string{name, sort})
+		return t
 	case "init":
 		t = u.W.Const(name+"@0", sort)
 		u.heapInitFacts(name, t, TTrue)
@@ -231,6 +238,9 @@ type Unit struct {
 	havocCalls  map[string]bool
 	inlined     map[string]bool
 	lockKeys    map[string]bool
+	seqFacts    map[string]bool
+	opaqueDefs  map[string]*opaqueDef
+	hintTags    map[string]string // property tag -> flag constant enabling the hints of that tag
 	sortSites   []*SortSite
 	qid         int
 	globalEpoch int
@@ -281,6 +291,13 @@ func (o *Obligation) Query() string {
 	for _, a := range u.asserts[:o.NAsserts] {
 		b.WriteString(a)
 		b.WriteByte('\n')
+	}
+	for _, tag := range sortedStrKeys(u.hintTags) {
+		if strings.Contains(o.Name, "["+tag+".") {
+			fmt.Fprintf(&b, "(assert %s)\n", u.hintTags[tag])
+		} else {
+			fmt.Fprintf(&b, "(assert (not %s))\n", u.hintTags[tag])
+		}
 	}
 	fmt.Fprintf(&b, "; obligation: %s\n; %s\n", o.Name, strings.ReplaceAll(o.Text, "\n", " "))
 	fmt.Fprintf(&b, "(assert %s)\n(assert (not %s))\n(check-sat)\n", o.Reach.S, o.Goal.S)
@@ -375,3 +392,4 @@ type boxedVal struct {
 	T types.Type
 	V Value
 }
+
